@@ -86,3 +86,8 @@ CHECKS["C10"] = ("exploration",
    "Every admissible sequence of <= 3 tokens of a 90-token number-format grammar (x 3 section variants), sampled longer formats and every built-in id are classified by the real code through a hook and compared with a reference classifier that works on the generating token list; workbooks with random style tables, every numeric encoding and both date systems are read back in xlsx, xlsb and xls and the DateTime/duration/plain typing of every numeric cell is compared with the model.",
    "trusted base: the token grammar and its admissibility rules (listed in the evidence assumptions); locale-dependent built-in ids unchecked",
    "DESIGN.md §7 C10")
+CHECKS["C08"] = ("exploration",
+   "runtime monitoring: header-row option histories on generated sheets in four formats vs relational oracle against the default-option read",
+   "The same kind of sheets (gaps between rows, data at the start / far down / near the last row) is written in all four formats; for every candidate header row in random order the range must start exactly at n iff data exists at or below n, its used cells must be exactly the default-option cells of rows >= n, the borrowed path must agree, no call may panic, and switching back must restore the default result.",
+   "trusted base: the four reference encoders; header rows far above the data only when the dense range stays small",
+   "DESIGN.md §7 C08")
